@@ -324,6 +324,49 @@ fn piecewise_events<L: swiftness_air::layout::LayoutTrait>(proof: &StarkProof) -
     verif::take_events()
 }
 
+/// The interaction elements as the verifier will *use* them: the named fields of the value
+/// `traces_commit` returns (not the order in which they were drawn).
+fn named_interaction_elements<L: swiftness_air::layout::LayoutTrait>(proof: &StarkProof) -> Option<Value>
+where
+    L::InteractionElements: serde::Serialize,
+{
+    let r = std::panic::catch_unwind(std::panic::AssertUnwindSafe(|| {
+        let digest = proof.public_input.get_hash(proof.config.n_verifier_friendly_commitment_layers);
+        let mut t = Transcript::new(digest);
+        let traces = L::traces_commit(&mut t, &proof.unsent_commitment.traces, proof.config.traces.clone());
+        serde_json::to_value(&traces.interaction_elements).ok()
+    }));
+    r.ok().flatten()
+}
+
+/// Stone's numbering of the interaction elements ("Interaction element #k" in the prover's log).
+const INTERACTION_ORDER: [&str; 8] = [
+    "memory_multi_column_perm_perm_interaction_elm",
+    "memory_multi_column_perm_hash_interaction_elm0",
+    "range_check16_perm_interaction_elm",
+    "diluted_check_permutation_interaction_elm",
+    "diluted_check_interaction_z",
+    "diluted_check_interaction_alpha",
+    "add_mod_interaction_elm",
+    "mul_mod_interaction_elm",
+];
+
+/// None = every logged element is handed on under its Stone name; Some(text) = what is wrong.
+fn interaction_assignment_problem(layout: &str, image: &Value, logged: &[Felt]) -> Option<Option<String>> {
+    let proof: StarkProof = serde_json::from_value(image.clone()).ok()?;
+    let Some(Value::Object(named)) = crate::with_layout!(layout, named_interaction_elements, &proof) else { return None };
+    let n = logged.len();
+    if named.len() != n || n > INTERACTION_ORDER.len() {
+        return Some(Some(format!("{} named elements, the prover logged {n}", named.len())));
+    }
+    for (k, name) in INTERACTION_ORDER.iter().take(n).enumerate() {
+        if named.get(*name).and_then(image::felt_of) != Some(logged[k]) {
+            return Some(Some(format!("{name} is not the prover's interaction element #{k}")));
+        }
+    }
+    Some(None)
+}
+
 fn piecewise(layout: &str, image: &Value) -> Option<Vec<Event>> {
     let proof: StarkProof = serde_json::from_value(image.clone()).ok()?;
     Some(crate::with_layout!(layout, piecewise_events, &proof))
@@ -577,6 +620,14 @@ pub fn c08(ctx: &mut Ctx) {
             logged.extend(l.challenges.oods_point);
             logged.extend(l.challenges.oods_alpha);
             logged.extend(l.challenges.fri_eval_points.iter());
+            // ... and each element is handed on under the name Stone gives that number
+            if let Some(r) = interaction_assignment_problem(&base.layout, &base.image, &l.challenges.interaction_elements) {
+                ctx.stats.evaluations += 1;
+                match r {
+                    Some(b) => ctx.violation("C08|recorded-challenges|interaction-element-assignment", &format!("{}: {b}", base.name), mk(ctx, &[], "interaction-assignment")),
+                    None => ctx.stats.probe_n("interaction-elements-matched-by-name", l.challenges.interaction_elements.len() as u64),
+                }
+            }
             if sq != logged {
                 let pos = sq.iter().zip(logged.iter()).position(|(a, b)| a != b);
                 ctx.violation("C08|recorded-challenges", &format!("{}: verifier challenges differ from the prover's V->P log at {:?} ({} vs {} challenges)", base.name, pos, sq.len(), logged.len()), mk(ctx, &[], "recorded"));
@@ -851,6 +902,15 @@ pub fn replay(rep: &Value) -> Result<(bool, String), String> {
             logged.sort();
             logged.dedup();
             Ok((got.as_ref() != Some(&logged), format!("{got:?}")))
+        }
+        Some("protocol-history") if rep["oracle"].as_str() == Some("interaction-assignment") => {
+            let base = proofrun::base_from_spec(&rep["base"])?;
+            let l = stone_loader::load_file(rep["base"]["file"].as_str().ok_or("not a recorded base")?)?;
+            match interaction_assignment_problem(&base.layout, &base.image, &l.challenges.interaction_elements) {
+                Some(Some(b)) => Ok((true, b)),
+                Some(None) => Ok((false, "every element under its name".into())),
+                None => Err("traces_commit did not complete".into()),
+            }
         }
         Some("protocol-history") | Some("recorded-pow") => {
             let base = proofrun::base_from_spec(&rep["base"])?;
